@@ -18,7 +18,7 @@ ASSUME = [
     'handles are opened before the history starts (opening after close is not part of the property); garbage collection of handles is not modelled',
     'MemoryFS file objects keep returning data after close() (PyFilesystem2 behaviour): CDN / SD-title readers are driven over OS directories',
     'use = read(1) after the position was set to 0, read(0), tell(), seek(0); readable()/writable()/seekable() are not counted as I/O calls returning data',
-    'NAND is covered by its own scenario only when the C13 builder is available (see evidence)',
+    'NAND is opened from a file object only (its image is a 0x3AF00000-byte sparse virtual file); CDN / SD-title readers have no closefd parameter',
 ]
 
 
@@ -264,7 +264,7 @@ def run(ctx):
         return bad[0] if bad else None
 
     return finish(ctx, proof,
-                  'every configuration (10 reader kinds + 7 wrapper kinds) x (caller-supplied object, OS path, filesystem + path) x closefd in '
+                  'every configuration (11 reader kinds incl. NAND + 7 wrapper kinds) x (caller-supplied object, OS path, filesystem + path) x closefd in '
                   '(default, True, False): one handle of every kind the reader hands out, incl. handles of nested readers; close histories '
                   '(reader; reader twice; each handle / nested reader then reader, each twice; random orders) with a sweep of read(1)/read(0)/tell/seek(0) '
                   'on every handle after each close; use-after-close, containment, ownership and close-raises decided against the property directly, '
